@@ -1,25 +1,36 @@
 #!/usr/bin/env python3
-"""mutation self-test: apply one textual edit to a scratch copy of the repo, regenerate, build the ties."""
+"""mutation self-test: apply one textual edit to a scratch copy of the repo, regenerate, build the ties.
+
+usage:  SELFTEST_VERIF=<private copy of verif/> [SELFTEST_WORK=<scratch dir>] [SELFTEST_REPO=/repo] run.py [mutant ids…]
+
+The script REWRITES <verif>/lean/S2/Generated and runs `lake build` there: give it a private copy of the tree
+(never /verif itself).  It builds the translator from <verif>/translator_c01, reads muts.json next to this file,
+and restores the unmutated generated files at the end.  About 15-25 s per mutant."""
 import os, re, shutil, subprocess, sys, json
-ROOT = "/tmp/agents/tr01"
-VERIF = ROOT + "/verif"
+HERE = os.path.dirname(os.path.abspath(__file__))
+VERIF = os.environ.get("SELFTEST_VERIF") or os.path.dirname(os.path.dirname(HERE))
+if os.path.realpath(VERIF) == "/verif":
+    sys.exit("refusing to run inside /verif: set SELFTEST_VERIF to a private copy")
+WORK = os.environ.get("SELFTEST_WORK", "/tmp/translator_c01_selftest")
+REPO = os.environ.get("SELFTEST_REPO", "/repo")
 LEAN = VERIF + "/lean"
 GEN = LEAN + "/S2/Generated"
-MREPO = ROOT + "/mrepo"
+MREPO = WORK + "/mrepo"
+TRBIN = WORK + "/tr"
 ENV = dict(os.environ, GOFLAGS="-mod=mod", GOPROXY="off", GOSUMDB="off", GOTOOLCHAIN="local")
-OURS = ["CellIDFns.lean", "CellUnionFns.lean", "PredConsts.lean", "CodecConsts.lean"]
-TIES = ["S2Proofs.Ties.C01", "S2Proofs.Ties.C11", "S2Proofs.Ties.C02", "S2Proofs.Ties.C09"]
+TIES = ["S2Proofs.Ties.C01", "S2Proofs.Ties.C01_Neighbors", "S2Proofs.Ties.C01_Strings", "S2Proofs.Ties.C11", "S2Proofs.Ties.C02", "S2Proofs.Ties.C09"]
 
-MUTS = json.load(open(ROOT + "/mut/muts.json"))
+MUTS = json.load(open(HERE + "/muts.json"))
+os.makedirs(WORK, exist_ok=True)
 
 def sh(cmd, cwd=None):
     p = subprocess.run(cmd, cwd=cwd, env=ENV, stdout=subprocess.PIPE, stderr=subprocess.STDOUT, text=True)
     return p.returncode, p.stdout
 
 def regen(repo):
-    out = ROOT + "/mut/out"
+    out = WORK + "/out"
     shutil.rmtree(out, ignore_errors=True); os.makedirs(out)
-    rc, o = sh([ROOT + "/tr", "-repo", repo, "-out", out, "-facts", ROOT + "/mut/facts.json"], cwd="/tmp")
+    rc, o = sh([TRBIN, "-repo", repo, "-out", out, "-facts", WORK + "/facts.json"], cwd="/tmp")
     return rc, o, out
 
 def install(out):
@@ -40,13 +51,15 @@ def build():
         names.append(f"{os.path.basename(f)}:{nm}")
     return rc, sorted(set(names)), o
 
+rc, o = sh(["go", "build", "-o", TRBIN, "."], cwd=VERIF + "/translator_c01")
+assert rc == 0, o
 only = sys.argv[1:]
 results = []
 for m in MUTS:
     if only and m["id"] not in only:
         continue
     shutil.rmtree(MREPO, ignore_errors=True)
-    shutil.copytree("/repo", MREPO, ignore=shutil.ignore_patterns(".git"))
+    shutil.copytree(REPO, MREPO, ignore=shutil.ignore_patterns(".git"))
     path = os.path.join(MREPO, m["file"])
     s = open(path).read()
     if s.count(m["old"]) != 1:
@@ -62,7 +75,7 @@ for m in MUTS:
     print(f'{m["id"]}: {m["file"]}: `{m["old"]}` -> `{m["new"]}`  ==> {res}', flush=True)
     results.append((m, res))
 # restore
-rc, o, out = regen("/repo")
+rc, o, out = regen(REPO)
 assert rc == 0, o
 install(out)
 rc, names, o = build()
